@@ -276,6 +276,28 @@ def make_v1(eng, body_spec, ncuts=0):
     return body
 
 
+def make_v1_malformed(eng):
+    """A v1 file with a malformed line (blank, one or two fields) between two entries: the load fails, or gives exactly the entries of the file without that line."""
+    head = [HDR1, b"# Project: a\n# Version: 1\n"]
+    e1, e2 = [b"a mod l\n"], [(1, "ab"), b" func m\n", b"c class n\n"]
+    mal = [(2, "x \n"), b"\n"]
+    data = _mk_bytes(eng, head + e1 + mal + e2)
+    npre = sum(len(x) for x in head + e1)
+    clean = data[:npre] + data[npre + 3:]
+    eng.witness_fn = lambda m: {"bytes": eng.eval_model(m, data).decode("latin1"), "clean": eng.eval_model(m, clean).decode("latin1"), "cuts": []}
+
+    def body():
+        r0 = run_myst(eng, data, [])
+        if r0[0] != "ok":
+            eng.passed(1)
+            return "rejected"
+        res = compare_with_sphinx(eng, clean, r0)
+        eng.require(res == "equal", "harness", "the file without the malformed line is a valid inventory")
+        return "skipped"
+
+    return body
+
+
 def make_header(eng, n):
     """Arbitrary first line (symbolic) + rest: header dispatch must agree with Sphinx (accept/reject)."""
     data = _mk_bytes(eng, [b"# Sphinx inventory version ", (n, "12 \n\r"), b"# Project: a\n# Version: 1\n", ZLINE, b"a x:y 1 l -\n"])
@@ -358,6 +380,7 @@ def families(tier, seed):
     F.append(Family("v2/header-N%d" % (2 if q else 3), make_header, "format line '# Sphinx inventory version ' + %d symbolic chars over '12 \\n\\r'" % (2 if q else 3), args=dict(n=2 if q else 3), nontrivial=None))
     F.append(Family("v1/lines", make_v1, "v1 file with two symbolic 'name type loc' lines", args=dict(body_spec=[(2, "ab "), b" ", (3, "mod "), b" ", (2, "l ") , b"\n", b"x class y\n"], ncuts=0),
                     nontrivial="compared"))
+    F.append(Family("v1/malformed-line", make_v1_malformed, "v1 file with a malformed line (2 symbolic chars over 'x', space, newline: blank lines, or fewer than three fields) between entries: the load fails or returns exactly the other entries", nontrivial="compared"))
     F.append(Family("v1/chunks", make_v1, "v1 file, 1 symbolic read boundary", args=dict(body_spec=[b"a mod l\n", (1, "ab"), b" func m\n"], ncuts=1), nontrivial="compared"))
     F.append(Family("v1/chunks-C2", make_v1, "v1 file of three entries, 2 symbolic read boundaries (an entry line straddling the second boundary)", args=dict(body_spec=[b"a mod l\n", (1, "ab"), b" func m\n", b"c class n\n"], ncuts=2),
                     nontrivial="compared", max_forks=40000))
@@ -448,9 +471,11 @@ def replay(label, witness):
     from sphinx.util.inventory import InventoryFile
 
     try:
-        sinv = InventoryFile.loads(data, uri="")
+        sinv = InventoryFile.loads(witness["clean"].encode("latin1") if "clean" in witness else data, uri="")
     except ValueError:
         return None
+    if r0[0] != "ok" and "clean" in witness:
+        return None  # a malformed line may make the load fail
     if r0[0] != "ok":
         return ("C18/myst-rejects", "Sphinx loads %r but MyST raises ValueError(%s)" % (raw, r0[1]))
     a = {}
